@@ -1361,6 +1361,20 @@ def __is_method_defined_in_class(class_: type | types.UnionType, method: object)
     return class_ == get_class_that_defined_method(method)
 
 
+def __is_ignored_method(type_info: TypeInfo, method_name: str) -> bool:
+    """Checks whether a method is excluded from the analysis by the configuration.
+
+    Args:
+        type_info: The class that defines the method.
+        method_name: The name of the method.
+
+    Returns:
+        True, if the qualified name of the method is listed in ``ignore_methods``.
+    """
+    method_blacklist = set(METHOD_BLACKLIST).union(config.configuration.ignore_methods)
+    return f"{type_info.full_name}.{method_name}" in method_blacklist
+
+
 @dataclasses.dataclass
 class CallableData:
     """Provides all information on callables.
@@ -1688,6 +1702,7 @@ def __analyse_method(
         or __should_skip_by_visibility(method_name.rpartition(".")[2], add_to_test=add_to_test)
         or __is_constructor(method_name)
         or not __is_method_defined_in_class(type_info.raw_type, method)
+        or __is_ignored_method(type_info, method_name)
     ):
         LOGGER.debug("Skipping method %s from analysis", method_name)
         return
